@@ -22,6 +22,7 @@ func init() {
 			{ID: "C20.R4", Floor: 5, Doc: "CA / key-pair file errors are returned and propagated", Run: c20r4},
 			{ID: "C20.R5", Floor: 2, Doc: "password token only after approve(); default list only when the custom list is empty", Run: c20r5},
 			{ID: "C20.R6", Floor: 3, Doc: "no unauthenticated session: nil only for READY / AUTH_SUCCESS; missing authenticator refused first", Run: c20r6},
+			{ID: "C20.R7", Floor: 1, Doc: "the name the server certificate is verified against is the host's name (HostnameAndPort), not the address that was dialled", Run: c20r7},
 		},
 	})
 }
@@ -347,6 +348,12 @@ func mergeStores(a, b map[string]tri) map[string]tri {
 
 func (ti *tlsInterp) assign(l, r ast.Expr) {
 	ls := exprStr(l)
+	// a field promoted through an embedded *tls.Config: spell the path out
+	if sel, ok := ast.Unparen(l).(*ast.SelectorExpr); ok && sel.Sel.Name == "InsecureSkipVerify" {
+		if s := ti.info.Selections[sel]; s != nil && len(s.Index()) > 1 && !isTLSConfigPtr(ti.info.TypeOf(sel.X)) {
+			ls = exprStr(sel.X) + ".Config.InsecureSkipVerify"
+		}
+	}
 	r = ast.Unparen(r)
 	if strings.HasSuffix(ls, ".InsecureSkipVerify") {
 		ti.store[ls] = ti.eval(r)
@@ -541,6 +548,8 @@ func c20r2(p *Program, r *Report) {
 				if sel, ok := ast.Unparen(l).(*ast.SelectorExpr); ok {
 					if t := info.TypeOf(sel.X); t != nil && isTLSConfigPtr(t) && fieldOf(info, sel) != nil {
 						stores = append(stores, as)
+					} else if isTLSConfigField(fieldOf(info, sel)) {
+						stores = append(stores, as) // promoted through an embedded *tls.Config
 					}
 				}
 			}
@@ -553,7 +562,14 @@ func c20r2(p *Program, r *Report) {
 		for _, as := range stores {
 			for _, l := range as.Lhs {
 				sel, ok := ast.Unparen(l).(*ast.SelectorExpr)
-				if !ok || !isTLSConfigPtr(info.TypeOf(sel.X)) {
+				if !ok {
+					continue
+				}
+				if !isTLSConfigPtr(info.TypeOf(sel.X)) {
+					if isTLSConfigField(fieldOf(info, sel)) {
+						n++
+						r.Bad(as, fi.Name+" writes "+exprStr(l), "a field of the *tls.Config embedded in "+exprStr(sel.X)+" is written: that is the caller's own (possibly shared) configuration - verification settings leak between clusters and into the application's config")
+					}
 					continue
 				}
 				n++
@@ -1063,4 +1079,56 @@ func (ti *tlsInterp) helperWrites(n ast.Node) {
 			}
 		}
 	}
+}
+
+// c20r7: tlsConfigForAddr derives tls.Config.ServerName from the address WrapTLS is given. The default dialer must
+// hand it the host's name as the user knows it (HostnameAndPort: the configured host name when there is one), not
+// the connect address it dialled: with the IP there, a certificate issued for the host name is rejected and one that
+// merely lists the IP is accepted.
+func c20r7(p *Program, r *Report) {
+	fi := r.NeedFunc("(*defaultHostDialer).DialHost")
+	if fi == nil {
+		return
+	}
+	n := 0
+	for _, u := range p.unitsOf(fi) {
+		info := u.Pkg.TypesInfo
+		for _, c := range callsIn(u.Decl.Body) {
+			if !isCallTo(info, c, "WrapTLS") || len(c.Args) != 4 {
+				continue
+			}
+			n++
+			_, addr := p.resolveValue(u, c.Args[2], 0)
+			ok := false
+			if ac, isCall := ast.Unparen(addr).(*ast.CallExpr); isCall && strings.HasSuffix(calleeName(info, ac), ".HostnameAndPort") {
+				ok = true
+			}
+			r.Check(ok, c, u.Name+" verifies the certificate against the host's name", "WrapTLS(..., host.HostnameAndPort(), ...)",
+				"WrapTLS is given "+exprStr(addr)+" as the address the server name is taken from, not host.HostnameAndPort(): the certificate is checked against the dialled IP instead of the host name the user configured")
+		}
+	}
+	if n == 0 {
+		r.Unresolved("DialHost does not call WrapTLS")
+	}
+}
+
+// isTLSConfigField: fv is a field of crypto/tls.Config.
+func isTLSConfigField(fv *types.Var) bool {
+	if fv == nil || fv.Pkg() == nil || fv.Pkg().Path() != "crypto/tls" {
+		return false
+	}
+	cfg := fv.Pkg().Scope().Lookup("Config")
+	if cfg == nil {
+		return false
+	}
+	st, ok := cfg.Type().Underlying().(*types.Struct)
+	if !ok {
+		return false
+	}
+	for i := 0; i < st.NumFields(); i++ {
+		if st.Field(i) == fv {
+			return true
+		}
+	}
+	return false
 }
